@@ -372,15 +372,15 @@ Proof.
   destruct (existsb (fun e => str_eqb (estep e) l && str_eqb (ename e) x) (envs s)); [destruct rep|]; exact HJ.
 Qed.
 
-Lemma JA_add_envs (l : str) (xs : list str) (s : st) :
-  JA l s -> JA l (fold_left (fun s0 e => add_env l e true false s0) xs s).
+Lemma JA_add_envs (l : str) (dyn rep : bool) (xs : list str) (s : st) :
+  JA l s -> JA l (fold_left (fun s0 e => add_env l e dyn rep s0) xs s).
 Proof.
   revert s. induction xs as [|x xs IH]; intros s HJ; [exact HJ|]. cbn [fold_left]. apply IH.
   apply JA_add_env. exact HJ.
 Qed.
 
-Lemma JA_declare_output (l p : str) (f : fstate) (s s' : st) :
-  (do t <- declare_file (KStep, l) p f s; add_output_edge l p true t) = Ok s' -> JA l s -> JA l s'.
+Lemma JA_declare_output (l p : str) (f : fstate) (dyn : bool) (s s' : st) :
+  (do t <- declare_file (KStep, l) p f s; add_output_edge l p dyn t) = Ok s' -> JA l s -> JA l s'.
 Proof.
   intros H HJ. unfold bind in H.
   destruct (declare_file (KStep, l) p f s) as [t| |] eqn:E1; try discriminate.
@@ -394,7 +394,7 @@ Proof.
         destruct (JA_create_file l p _ _ s u Hc HJ) as (J & Hno & Hp & _); auto end. }
   destruct Ht as (Jt & Hno & Hp). unfold add_output_edge in H.
   destruct (would_cycle (KFile, p) [(KStep, l)] t); [discriminate|].
-  apply (JA_add_dep l _ _ true t s' H Jt (only_at_output l p true) Hp).
+  apply (JA_add_dep l _ _ dyn t s' H Jt (only_at_output l p dyn) Hp).
   intros f0 Hf e He. injection Hf as <-. exact (Hno e He).
 Qed.
 
@@ -409,7 +409,7 @@ Proof.
   unfold bind in H.
   destruct (supply_files l inp false true s) as [s1| |] eqn:E1; try discriminate.
   pose proof (JA_supply_files l inp false true s s1 E1 HJ) as J1.
-  pose proof (JA_add_envs l env s1 J1) as J2. cbv zeta in H.
+  pose proof (JA_add_envs l true false env s1 J1) as J2. cbv zeta in H.
   set (s2 := fold_left (fun s0 e => add_env l e true false s0) env s1) in *.
   match type of H with match ?m with _ => _ end = _ => destruct m as [out'| |]; try discriminate end.
   match type of H with match ?m with _ => _ end = _ => destruct m as [vol'| |]; try discriminate end.
@@ -417,9 +417,9 @@ Proof.
   match type of H with match ?m with _ => _ end = _ => destruct m as [s3| |] eqn:E3; try discriminate end.
   assert (J3 : JA l s3).
   { refine (foldM_inv _ (JA l) _ out' s2 s3 J2 E3). intros t p t' Jt Hc.
-    exact (JA_declare_output l p FPlanned t t' Hc Jt). }
+    exact (JA_declare_output l p FPlanned true t t' Hc Jt). }
   refine (foldM_inv _ (JA l) _ vol' s3 s' J3 H). intros t p t' Jt Hc.
-  exact (JA_declare_output l p FVolatile t t' Hc Jt).
+  exact (JA_declare_output l p FVolatile true t t' Hc Jt).
 Qed.
 
 Lemma K_amend_step (l : str) (inp env out vol : list str) (s s' : st) :
